@@ -113,7 +113,7 @@ fn main() {
                 violation_classes: Default::default(),
                 start: std::time::Instant::now(),
             };
-            common::watchdog_start(std::env::var("VERIF_RUN_WATCHDOG_S").ok().and_then(|v| v.parse().ok()).unwrap_or(240));
+            common::watchdog_start(std::env::var("VERIF_RUN_WATCHDOG_S").ok().and_then(|v| v.parse().ok()).unwrap_or(150));
             let r = std::panic::catch_unwind(std::panic::AssertUnwindSafe(|| dispatch(&mut ctx)));
             if r.is_err() {
                 let (loc, msg) = monitor::last_panic().unwrap_or(("<unknown>".into(), "<unknown>".into()));
